@@ -119,13 +119,20 @@ def gen_vtu(rng, npts=None, ncells=None):
     ncells = ncells if ncells is not None else rng.choice([0, 1, 2, 3, 5, 6, 7, 8, 9, 13])
     coord = rng.choice(["Float64", "Float32"])
     types = rng.sample([1, 3, 5, 8, 9, 10, 11, 12, 13, 14], rng.randint(1, 3))
-    if rng.random() < 0.1:
-        types[0] = 7            # polygons in a .vtu, all with the same number of corners
+    ragged = None
+    if rng.random() < 0.2:
+        types[0] = 7            # polygons in a .vtu: one corner count, or differing ones (then in patterns such as 4,3,5 whose
+        if rng.random() < 0.6:  # first count is the mean of all counts)
+            ragged = rng.choice([[4, 3, 5], [4, 5, 3], [5, 4, 6, 5], [3, 4], [4, 3], [4, 4, 3, 5], [6, 3, 3]])
     kpoly = rng.randint(3, 6)
     cells = []
+    npoly = 0
     for _ in range(ncells):
         t = rng.choice(types)       # cells of different types interleaved in the file
         k = CELLS[t][1] or kpoly
+        if t == 7 and ragged:
+            k = ragged[npoly % len(ragged)]
+            npoly += 1
         cells.append([t, [rng.randrange(npts) for _ in range(k)]])
     order = ["PointData", "CellData", "Points", "Cells"]
     rng.shuffle(order)
